@@ -11,6 +11,71 @@ import MdsVerif.Spec.CursorList
 namespace MdsVerif.Proofs.Mlink
 open MdsVerif.Model MdsVerif.Model.Mlink MdsVerif.Spec
 
+/-! ## the model functions with the regenerated facts (`Gen.MlinkQueue`) written out
+
+`extract/mlinkq.go` regenerates from mlink/queue.go and mlink/list.go: the test under which `Queue.Pop` resets
+`q.back`, the size after `Pop`/`Add`/`Clear`, whether `Cursor.Remove` self-links the removed entry
+unconditionally, and whether `Cursor.Truncate` invalidates before it cuts.  The proofs below (and
+`Proofs.MlinkRefine`) unfold `remove`, `truncate`, `qadd`, `qpop`, `qclear` only through these lemmas. -/
+section facts
+open MdsVerif.Gen.MlinkQueue
+
+theorem remove_def (h : Heap) (p : Nat) :
+    remove h p =
+      (atEnd h p).bind fun e =>
+      if e then .ok (h, 0) else
+      let t := tgt h p
+      let val := h.val t
+      let nx := h.link t
+      .ok ((h.setLink t (some t)).setLink p nx, val) := by
+  simp [remove, removeSelfLinksAlways]
+
+theorem truncate_def (h : Heap) (p : Nat) :
+    truncate h p =
+      if invalid h p then .panic h p else
+      (invalidate (h.size + 1) h (h.link p)).bind fun h1 => .ok (h1.setLink p none) := by
+  simp [truncate, truncateInvalidatesFirst]
+
+theorem qadd_def (q : Q) (v : Int) :
+    qadd q v =
+      match add q.h q.backPred [v] with
+      | .ok (h', p') => ({ h := h', back := some p', size := q.size + 1 }, .unit)
+      | .panic h' p' => ({ q with h := h', back := some p' }, .panicInvalid)
+      | .hang => (q, .hang) := by
+  simp only [qadd, addSize]
+  rfl
+
+theorem qpop_def (q : Q) :
+    qpop q =
+      match get q.h 0 with
+      | .panic _ _ => (q, .panicInvalid)
+      | .hang => (q, .hang)
+      | .ok out =>
+      match atEnd q.h 0 with
+      | .panic _ _ => (q, .panicInvalid)
+      | .hang => (q, .hang)
+      | .ok true => (q, .pair out false)
+      | .ok false =>
+      match remove q.h 0 with
+      | .panic _ _ => (q, .panicInvalid)
+      | .hang => (q, .hang)
+      | .ok (h', _) =>
+        let q' : Q := { q with h := h', size := q.size - 1 }
+        (if isEmpty h' then { q' with back := some 0 } else q', .pair out true) := by
+  simp only [qpop, popSize, popResets]
+  rfl
+
+theorem qclear_def (q : Q) :
+    qclear q =
+      match clear q.h with
+      | .ok h' => ({ h := h', back := some 0, size := 0 }, .unit)
+      | .panic h' _ => ({ q with h := h' }, .panicInvalid)
+      | .hang => (q, .hang) := by
+  simp only [qclear, clearSize]
+  rfl
+
+end facts
+
 /-! ## heap algebra -/
 
 theorem link_setLink (h : Heap) (i : Nat) (l : Option Nat) (j : Nat) :
@@ -86,8 +151,8 @@ theorem stale_refuses (h : Heap) (p : Nat) (hs : h.link p = some p) :
   · simp [next, ha]
   · intro v; simp [push, hi]
   · intro v vs; simp [add, push, hi]
-  · simp [remove, ha]
-  · simp [truncate, hi]
+  · simp [remove_def, ha]
+  · simp [truncate_def, hi]
 
 /-! ## linked segments -/
 
@@ -292,7 +357,7 @@ theorem remove_wf (h : Heap) (pre : List Nat) (p t : Nat) (post : List Nat)
     · simp [h1, hp]
     · simp [h1, ht]
   refine ⟨(h.setLink t (some t)).setLink p (h.link t), ?_, ?_, ?_, rfl, by simp⟩
-  · simp [remove, atEnd_cell h pre p (t :: post) hw.seg hw.nodup, tgt, hl]
+  · simp [remove_def, atEnd_cell h pre p (t :: post) hw.seg hw.nodup, tgt, hl]
   · have hseg := hw.seg
     rw [segL_append] at hseg
     refine ⟨?_, ?_, ?_, ?_, ?_, ?_, ?_⟩
@@ -416,7 +481,7 @@ theorem truncate_wf (h : Heap) (pre : List Nat) (p : Nat) (post : List Nat)
     intro j
     rw [link_setLink, e2, e4]
     by_cases h1 : j = p <;> simp [h1, hp]
-  refine ⟨h'.setLink p none, by simp [truncate, hv, e1], ?_, ?_, by simpa using e3, by simpa using e2⟩
+  refine ⟨h'.setLink p none, by simp [truncate_def, hv, e1], ?_, ?_, by simpa using e3, by simpa using e2⟩
   · refine ⟨?_, ?_, ?_, ?_, ?_, ?_, ?_⟩
     · have := hw.head; cases pre <;> simpa using this
     · rw [segL_append]
@@ -460,7 +525,7 @@ theorem clear_eq_truncate (h : Heap) (xs : List Nat) (hw : WF h xs) : clear h = 
     | nil => simp at this
     | cons a l => simp at this; exact ⟨l, by rw [this]⟩
   have := cell_valid h [] 0 post hw.seg hw.nodup
-  simp [clear, truncate, this]
+  simp [clear, truncate_def, this]
 
 /-! ## the traversal loops never run out of fuel on a well-formed chain -/
 
@@ -582,15 +647,15 @@ theorem qadd_inv (q : Q) (xs : List Nat) (v : Int) (hi : QInv q xs) :
   obtain ⟨h1, e1, w1, s1, v1, v2⟩ := push_wf q.h pre b [] v hi.wf
   have hn := next_cell h1 pre b q.h.size [] w1.seg w1.nodup
   refine ⟨pre ++ [b, q.h.size], ?_, ?_, ?_⟩
-  · simp only [qadd, hb, add, e1, bind_ok, hn]
+  · simp only [qadd_def, hb, add, e1, bind_ok, hn]
     refine ⟨w1, ?_, ?_⟩
     · simp [Q.backPred]
     · have := hi.size
       simp only [List.length_append, List.length_cons, List.length_nil] at this ⊢
       push_cast at this ⊢
       omega
-  · simp [qadd, hb, add, e1, hn]
-  · simp only [qadd, hb, add, e1, bind_ok, hn, abs]
+  · simp [qadd_def, hb, add, e1, hn]
+  · simp only [qadd_def, hb, add, e1, bind_ok, hn, abs]
     have : (pre ++ [b, q.h.size]).tail = (pre ++ [b]).tail ++ [q.h.size] := by cases pre <;> simp
     rw [this, List.map_append]
     congr 1
@@ -610,15 +675,15 @@ theorem qpop_inv (q : Q) (xs : List Nat) (hi : QInv q xs) :
   cases ids with
   | nil =>
     refine ⟨[0], ?_, ?_⟩
-    · simpa [qpop, hg, ha] using hi
-    · simp [qpop, hg, ha, CursorList.qstep, abs]
+    · simpa [qpop_def, hg, ha] using hi
+    · simp [qpop_def, hg, ha, CursorList.qstep, abs]
   | cons t r =>
     obtain ⟨h1, e1, w1, l1, v1, s1⟩ := remove_wf q.h [] 0 t r hi.wf
     have hem : isEmpty h1 = r.isEmpty := by
       have := cell_link h1 [] 0 r none w1.seg
       simp only [isEmpty, this]; cases r <;> simp
     refine ⟨0 :: r, ?_, ?_⟩
-    · simp only [qpop, hg, ha, List.isEmpty_cons, e1, hem]
+    · simp only [qpop_def, hg, ha, List.isEmpty_cons, e1, hem]
       have hsz : q.size - 1 = ((0 :: r).length : Int) - 1 := by
         have := hi.size; simp only [List.length_cons] at this ⊢; push_cast at this ⊢; omega
       cases r with
@@ -627,7 +692,7 @@ theorem qpop_inv (q : Q) (xs : List Nat) (hi : QInv q xs) :
         refine ⟨w1, ?_, hsz⟩
         have := hi.back
         simpa [List.getLast?_cons_cons, Q.backPred] using this
-    · simp only [qpop, hg, ha, List.isEmpty_cons, e1, hem, CursorList.qstep, abs, List.tail_cons, List.map_cons]
+    · simp only [qpop_def, hg, ha, List.isEmpty_cons, e1, hem, CursorList.qstep, abs, List.tail_cons, List.map_cons]
       have : List.map h1.val r = List.map q.h.val r := by
         apply List.map_congr_left; intro j _; simp [Heap.val, v1]
       cases r <;> simp [this]
@@ -637,7 +702,7 @@ theorem qclear_inv (q : Q) (xs : List Nat) (hi : QInv q xs) :
   obtain ⟨ids, rfl⟩ := xs_cons q.h xs hi.wf
   obtain ⟨h1, e1, w1, _, _, _⟩ := truncate_wf q.h [] 0 ids hi.wf
   rw [← clear_eq_truncate q.h _ hi.wf] at e1
-  have hq : qclear q = ({ h := h1, back := some 0, size := 0 }, .unit) := by simp [qclear, e1]
+  have hq : qclear q = ({ h := h1, back := some 0, size := 0 }, .unit) := by simp [qclear_def, e1]
   rw [hq]
   exact ⟨⟨w1, rfl, rfl⟩, rfl, rfl⟩
 
